@@ -430,7 +430,7 @@ func effectiveAt(c caseT, pos string) bool {
 	case pos == "answer" && (kind == "dropproof" || kind == "foreignproof"):
 		return zoneSigned(c.Zone) && needsProof
 	case pos == "answer" && kind == "inject":
-		return true
+		return zoneSigned(c.Zone) // unsigned zone: the foreign RRset is filtered (C07), the honest rest is served
 	case pos == "answer":
 		return zoneSigned(c.Zone)
 	}
